@@ -8,9 +8,14 @@ package props
 // oracles that do not use the model.
 
 import (
+	"context"
+	"crypto/sha256"
 	"encoding/json"
 	"fmt"
 	"math/rand"
+	"os"
+	"os/exec"
+	"path/filepath"
 	"sort"
 	"strings"
 	"time"
@@ -35,6 +40,11 @@ var c14Public = []c14Mod{
 	{"example.com/UPPER/Case", "v2.0.0+incompatible"},
 	{"rsc.io/sampler", "v1.3.0"},
 	{"a.b/c", "v0.0.1"},
+	// every letter A-Z as a capital in a path or version (the server must unescape them all)
+	{"example.com/Zpkg/libZ", "v1.0.0-Zulu"},
+	{"github.com/ZupIT/horusec-devkit", "v1.0.0"},
+	{"example.com/ABCDEFGHIJKLM/NOPQRSTUVWXYZ", "v1.2.3-RC.QXZ"},
+	{"example.com/jazZ/quiZ/Wyvern", "v0.9.0-BETA.JKVY+incompatible"},
 	// near misses of the private patterns below: they must be looked up
 	{"corp.example.com.evil/x", "v1.0.0"},
 	{"priv.io/a/public", "v1.2.3"},
@@ -54,8 +64,8 @@ var c14Private = []c14Mod{
 }
 
 var c14Matches = map[string]map[string]bool{
-	"":                 {},
-	"corp.example.com": {"corp.example.com/tool": true, "corp.example.com": true},
+	"":                                      {},
+	"corp.example.com":                      {"corp.example.com/tool": true, "corp.example.com": true},
 	"*.corp.example.com/x,priv.io/*/secret": {"team.corp.example.com/x/y": true, "priv.io/a/secret/z": true},
 	"git.internal/[a-c]*,,other.org/":       {"git.internal/beta/q": true, "other.org/m": true},
 }
@@ -99,6 +109,60 @@ type c14In struct {
 	Scn     c14Scn `json:"scenario"`
 	Choices []int  `json:"choices"`
 	Sched   string `json:"schedule,omitempty"`
+	Race    bool   `json:"race_smoke_run,omitempty"` // the input is the race smoke run, not a schedule
+}
+
+// ---- race smoke run ----------------------------------------------------------------------------
+// "Without data races" is outside the LTS.  Supporting oracle: harness/cmd/c14race (unscheduled
+// concurrent lookups, 12 goroutines on two clients sharing cache and config, tile heights
+// 1 and 2, growing server) is built with the race detector against the repository under
+// check and must run silently.  Status "unavailable" when there is no race toolchain.
+func c14RaceSmoke(out string) (status, report string) {
+	repo := os.Getenv("VERIF_REPO")
+	if repo == "" {
+		repo = "/repo"
+	}
+	args := []string{"build", "-race"}
+	if repo != "/repo" {
+		md := filepath.Join(out, "racemod")
+		if err := os.MkdirAll(md, 0o755); err != nil {
+			return "unavailable", err.Error()
+		}
+		gm, err := os.ReadFile("/verif/harness/go.mod")
+		if err != nil {
+			return "unavailable", err.Error()
+		}
+		sum, _ := os.ReadFile("/verif/harness/go.sum")
+		os.WriteFile(filepath.Join(md, "go.mod"), []byte(strings.Replace(string(gm), "=> /repo", "=> "+repo, 1)), 0o644)
+		os.WriteFile(filepath.Join(md, "go.sum"), sum, 0o644)
+		args = append(args, "-modfile="+filepath.Join(md, "go.mod"))
+	}
+	bin := fmt.Sprintf("/verif/.work/bin/c14race.%x", sha256.Sum256([]byte(repo)))[:len("/verif/.work/bin/c14race.")+12]
+	args = append(args, "-o", bin, "./cmd/c14race")
+	env := append(os.Environ(), "CGO_ENABLED=1", "GOFLAGS=-mod=mod", "GOPROXY=off", "GOSUMDB=off", "GOTOOLCHAIN=local")
+	ctx, cancel := context.WithTimeout(context.Background(), 6*time.Minute)
+	defer cancel()
+	build := exec.CommandContext(ctx, "go", args...)
+	build.Dir, build.Env = "/verif/harness", env
+	if b, err := build.CombinedOutput(); err != nil {
+		return "unavailable", "go build -race failed: " + err.Error() + ": " + string(b)
+	}
+	ctx2, cancel2 := context.WithTimeout(context.Background(), 90*time.Second)
+	defer cancel2()
+	run := exec.CommandContext(ctx2, bin)
+	run.Env = append(os.Environ(), "GORACE=halt_on_error=0")
+	b, err := run.CombinedOutput()
+	text := string(b)
+	if len(text) > 6000 {
+		text = text[:6000] + "\n[...]"
+	}
+	switch {
+	case strings.Contains(text, "WARNING: DATA RACE") || strings.Contains(text, "fatal error: concurrent map"):
+		return "race", text
+	case err != nil:
+		return "failed", err.Error() + ": " + text
+	}
+	return "silent", ""
 }
 
 func c14GenScn(r *rand.Rand, small bool) c14Scn {
@@ -187,7 +251,7 @@ func c14GenScn(r *rand.Rand, small bool) c14Scn {
 }
 
 // c14World builds the world of a scenario (deterministic).
-func c14World(s c14Scn) *gen.ConcWorld {
+func c14World(s c14Scn) (*gen.ConcWorld, string) {
 	w := gen.NewConcWorld()
 	w.Grow()
 	var prev *sumdb.Client
@@ -207,7 +271,7 @@ func c14World(s c14Scn) *gen.ConcWorld {
 				prev.SetTileHeight(s.PrevH)
 			}
 			if _, err := prev.Lookup(st.Path, st.Vers); err != nil {
-				panic("setup lookup failed: " + err.Error())
+				return w, fmt.Sprintf("sequential lookup of the previous process failed (honest server): Lookup(%q, %q): %v", st.Path, st.Vers, err)
 			}
 		case "resetcfg":
 			w.Cfg = nil
@@ -217,7 +281,7 @@ func c14World(s c14Scn) *gen.ConcWorld {
 	}
 	w.Trace = nil
 	w.TileOps = 0
-	return w
+	return w, ""
 }
 
 func c14Esc(s string) string {
@@ -256,6 +320,7 @@ type c14Outcome struct {
 	Run   *gen.ConcRun
 	Trace string
 	Skips int
+	NoRun bool // the scenario setup already failed
 }
 
 var c14Oracles = []string{"no-deadlock", "lookups-return-server-lines", "fetch-once-per-client-and-key",
@@ -277,7 +342,10 @@ func hsize(h *gen.ConcHead) int64 {
 
 func c14Exec(in c14In) *c14Outcome {
 	s := in.Scn
-	w := c14World(s)
+	w, setupErr := c14World(s)
+	if setupErr != "" {
+		return &c14Outcome{Fail: map[string]string{"lookups-return-server-lines": setupErr}, Run: &gen.ConcRun{}, NoRun: true}
+	}
 	cur0 := w.Size() - 1
 	cfg0, _ := gen.ConcHeadOfMsg(w.Cfg)
 	// keys: distinct lookup files
@@ -516,6 +584,10 @@ func c14Report(c *hx.Ctx, in c14In, o *c14Outcome) {
 		c.Count("hang")
 		return
 	}
+	if o.NoRun {
+		c.Count("setup-failed")
+		return
+	}
 	c.Case("Replay", o.Arg, wire.Ok(wire.I(0)))
 	c.Nontrivial(o.Trace)
 	c.Count(fmt.Sprintf("threads=%d", len(in.Scn.Lookups)))
@@ -570,6 +642,17 @@ func c14Report(c *hx.Ctx, in c14In, o *c14Outcome) {
 
 func runC14(c *hx.Ctx) {
 	r := c.Rng
+	t0 := time.Now()
+	status, report := c14RaceSmoke(c.Out)
+	c.Count("race:" + status)
+	c.Count(fmt.Sprintf("race-smoke-seconds=%d", int(time.Since(t0).Seconds())))
+	if status == "unavailable" {
+		c.Sample("race smoke run unavailable: " + report)
+	} else {
+		c.Check("race-detector-silent", status != "race", "", c14In{Race: true}, report)
+		// lookups that fail (or a crash) in the unscheduled runner are a functional failure
+		c.Check("lookups-return-server-lines", status != "failed", "", c14In{Race: true}, "unscheduled concurrent lookups (cmd/c14race): "+report)
+	}
 	// exhaustive depth-first enumeration of the call-level schedules of 2 threads
 	nDFS, capDFS := 6, c.N(150)
 	for i := 0; i < nDFS; i++ {
@@ -621,6 +704,12 @@ func replayC14(raw json.RawMessage) (bool, string) {
 	var in c14In
 	if err := json.Unmarshal(raw, &in); err != nil {
 		return false, err.Error()
+	}
+	if in.Race {
+		dir, _ := os.MkdirTemp("/verif/.work", "c14race-replay")
+		defer os.RemoveAll(dir)
+		status, report := c14RaceSmoke(dir)
+		return status == "silent" || status == "unavailable", status + ": " + report
 	}
 	for i := 0; i < 3; i++ {
 		o := c14Exec(in)
